@@ -4,9 +4,12 @@ import WaVerif.Gen.C30
 open WaVerif WaVerif.Proto WaVerif.C30
 
 /-! line protocol (model of `wa test`, `cfgCurrent` regenerated from the source):
-`run <pkg> F1 F2 …` with `F = name:T|E:0|1:N|O|P:<declhex>:R|P|A|X|T:<a>:<b>:<outhex>`
-   (kind, selected, declaration + hex text, end: Returns / Panics a=msg b=pos / Assert a=msg b=pos /
-    eXits a=decimal code / Traps; texts hex-encoded ASCII, `-` = empty)
+`run <pkg> <initOutHex> <g0> F1 F2 …` with
+   `F = name:T|E:0|1:N|O|P:<declhex>:R|P|A|X|T:<a>:<b>:<outhex>:<bump>:<printsG 0|1>`
+   (package init output and the value init gives the global counter; per function: kind, selected,
+    declaration + hex text, end: Returns / Panics a=msg b=pos / Assert a=msg b=pos / eXits a=decimal
+    code / Traps, own output after the optional counter line, counter increment, prints the counter;
+    texts hex-encoded ASCII, `-` = empty)
  → `status=<n>|<line>|<line>…` — the verdict lines as `wa test` prints them (`DUMP` = raw dump
    block, `FAIL`/`ok`/`?` without package name and time)
 `loaderror`, `notestfiles`, `cfg` -/
@@ -24,9 +27,9 @@ def parseEnd (k a b : String) : Option End :=
   | "T" => some .traps
   | _ => none
 
-def parseFn (tok : String) : Option Fn :=
+def parseFn (tok : String) : Option SFn :=
   match splitColon tok with
-  | [name, kind, sel, dk, dh, ek, a, b, oh] => do
+  | [name, kind, sel, dk, dh, ek, a, b, oh, bump, pg] => do
     let dt ← textOfHex dh
     let decl ← (match dk with
       | "N" => some Decl.none
@@ -35,7 +38,8 @@ def parseFn (tok : String) : Option Fn :=
       | _ => none)
     let e ← parseEnd ek a b
     let out ← textOfHex oh
-    some ⟨name.toList, kind == "E", sel == "1", decl, ⟨out, e⟩⟩
+    let k ← parseNat bump
+    some ⟨name.toList, kind == "E", sel == "1", decl, k, pg == "1", out, e⟩
   | _ => none
 
 /-- Go's `%q` for the characters the generators use -/
@@ -58,7 +62,7 @@ def render (pkg : String) : Line → String
 def showRun (pkg : String) (r : List Line × Nat) : String :=
   "|".intercalate (s!"status={r.2}" :: r.1.map (render pkg))
 
-def parseAll : List String → Option (List Fn)
+def parseAll : List String → Option (List SFn)
   | [] => some []
   | t :: ts => do
     let f ← parseFn t
@@ -67,16 +71,18 @@ def parseAll : List String → Option (List Fn)
 
 def handle (line : String) : String :=
   match words line with
-  | ["cfg"] => s!"testAbortFAIL={cfgCurrent.testAbortFAIL} exampleAbortFAIL={cfgCurrent.exampleAbortFAIL}"
+  | ["cfg"] => s!"testAbortFAIL={cfgCurrent.testAbortFAIL} exampleAbortFAIL={cfgCurrent.exampleAbortFAIL} initOutputLeaks={cfgCurrent.initOutputLeaks}"
   | ["loaderror"] => showRun "" (run cfgCurrent .loadError)
   | ["notestfiles"] => showRun "" (run cfgCurrent .noTestFiles)
-  | "run" :: pkg :: toks => match parseAll toks with
-    | some fns =>
-      let r := run cfgCurrent (.fns fns)
+  | "run" :: pkg :: ioh :: g0 :: toks => match parseAll toks, textOfHex ioh, parseNat g0 with
+    | some sfns, some io, some g =>
+      let p : Pkg := ⟨io, g⟩
+      let r := run cfgCurrent (.fns p sfns)
+      let fns := resolved p sfns
       let meet := decide (allMeet fns)
       let guarded := fns.all (fun f => !f.selected || Guarded f)
       s!"{showRun pkg r}|meet={meet} guarded={guarded}"
-    | none => "bad-op"
+    | _, _, _ => "bad-op"
   | _ => "bad-op"
 
 def main : IO Unit := lineLoop handle
